@@ -52,8 +52,8 @@ def plan(tier, seed):
     if tier == "quick":
         return ([{"kind": "split_exhaustive"}, {"kind": "build_sweep"}] + [{"kind": "build", "n": 10000} for _ in range(6)] +
                 [{"kind": "validate", "n": 1500} for _ in range(5)] + [{"kind": "convert_sweep"}] + [{"kind": "convert", "n": 90000} for _ in range(2)])
-    return ([{"kind": "split_exhaustive"}, {"kind": "build_sweep"}] + [{"kind": "build", "n": 480000} for _ in range(6)] +
-            [{"kind": "validate", "n": 75000} for _ in range(5)] + [{"kind": "convert_sweep"}] + [{"kind": "convert", "n": 4500000} for _ in range(2)])
+    return ([{"kind": "split_exhaustive"}, {"kind": "build_sweep"}] + [{"kind": "build", "n": 600000} for _ in range(16)] +
+            [{"kind": "validate", "n": 90000} for _ in range(12)] + [{"kind": "convert_sweep"}] + [{"kind": "convert", "n": 4500000} for _ in range(6)])
 
 
 # ---------------------------------------------------------------------------------------------
